@@ -417,7 +417,11 @@ func (e *Exec) apply(st Step) bool {
 		if err != nil {
 			return false
 		}
-		prj, err := LoadProject(d, st.Procs, e.Sc.Strict, e.Sc.LogLength, e.Sc.Top)
+		top := e.Sc.Top
+		if st.Top != "" {
+			top = st.Top
+		}
+		prj, err := LoadProject(d, st.Procs, e.Sc.Strict, e.Sc.LogLength, top)
 		if err != nil {
 			e.W.Record(world.Event{Kind: world.EvMark, Text: "update-load-error " + err.Error()})
 			return false
